@@ -24,6 +24,16 @@ STRENGTH.update({
  "C06-2":"C06 now compares the semantic content of every emitted data message (key ids, counter, flag, text, TLVs); which MAC keys are disclosed stays C09's subject (it catches this change)",
  "C09-2":"injected data messages with a wrong MAC for each of the four key pairs the receiver currently considers",
  "C10-2":"every disclosed value must be the receiving MAC key of a key pair known to the reference"})
+BEFORE.update({
+ "C11-2":"missed (caught by C12)","C12-2":"missed","C13-2":"missed","C14-2":"caught","C15-2":"missed","C16-2":"missed","C17-2":"missed","C18-2":"caught","C19-2":"caught","C20-2":"caught by the race pass only"})
+STRENGTH.update({
+ "C11-2":"second StartAuthenticate at ANY time (S2r: by the initiator, S2x: by the other side) with a monitor that tells clean restarts (must end in success / failure like a single run) from restarts that crossed the peer's answer (only safety + a fresh run must work)",
+ "C12-2":"malicious-prover family: every combination of Pb,Qb (SMP2) and Pa,Qa,Ra (SMP3) from {0,p,2p,1} with all proofs recomputed; this also exposed a genuine defect (v2 success without the secret with Pa=Ra=0), repaired in c1e8459",
+ "C13-2":"authenticated payloads: every ordered pair (thorough: triple) of the ten TLV kinds in one data message, in every state",
+ "C15-2":"receiver states before the own instance tag has been drawn (fresh-untagged)",
+ "C16-2":"part (c): single-version conversations in every state x input in the form of the forbidden version (foreign exchange messages, version field rewritten, genuine next message wrapped in the other version's fragment format)",
+ "C17-2":"6/11/16-account key files with the first name grown char by char over a whole entry (every token slid over every 4096-byte reader boundary) and chunked readers (short reads)",
+ "C20-2":"package-state comparison now hashes everything reachable (maps, interfaces, integers/arrays behind pointers), not only byte buffers: the shared hash.Hash state is seen by the exhaustive part too"})
 rows=[]
 for d in sorted(glob.glob(os.path.join(ROOT,'seeded','C*'))):
     pid=os.path.basename(d)
